@@ -377,10 +377,15 @@ func (s *coreSim) drain(limit uint32, useUpdate bool) int {
 	var nextFlush [2]uint32
 	nextFlush[0], nextFlush[1] = s.now, s.now
 	s.pend[0], s.pend[1] = nil, nil // whatever is still in flight is lost
-	// c02_round_progress (proved): on a healed network with the reader reading, ONE retransmission of
-	// the oldest unacknowledged segment advances snd_una.  Three without any advance = wedge.
+	// c02_round_progress (proved): on a healed network with the reader reading, ONE round - a
+	// retransmission of the oldest unacknowledged segment reaches the peer, the peer reads AND
+	// FLUSHES, its datagrams come back - advances snd_una.  Three retransmissions and three flushes
+	// of the peer since the last advance, and still none = wedge.  (Counting retransmissions alone
+	// is unsound: a no-delay sender with a 30 ms rto retransmits three times within one 100 ms
+	// flush interval of its peer.)
 	var baseUna [2]uint32
 	var baseXmit [2]uint32
+	var peerFlushes [2]int // flushes of endpoint 1-e since e's snd_una last advanced
 	headXmit := func(e int) (uint32, bool) {
 		var x uint32
 		ok := false
@@ -402,7 +407,8 @@ func (s *coreSim) drain(limit uint32, useUpdate bool) int {
 			x, ok := headXmit(e)
 			if s.k[e].snd_una != baseUna[e] || !ok {
 				baseUna[e], baseXmit[e] = s.k[e].snd_una, x
-			} else if x >= baseXmit[e]+3 && x > 3 {
+				peerFlushes[e] = 0
+			} else if x >= baseXmit[e]+3 && x > 3 && peerFlushes[e] >= 3 {
 				s.stats["heal-no-progress-exit"]++
 				return -1
 			}
@@ -412,9 +418,11 @@ func (s *coreSim) drain(limit uint32, useUpdate bool) int {
 				if int32(s.now-s.k[e].Check()) >= 0 {
 					s.Check(e)
 					s.Update(e)
+					peerFlushes[1-e]++
 				}
 			} else if int32(s.now-nextFlush[e]) >= 0 {
 				nextFlush[e] = s.now + s.Flush(e, true)
+				peerFlushes[1-e]++
 			}
 		}
 		for from := 0; from < 2 && !s.dead; from++ {
